@@ -27,6 +27,7 @@ func main() {
 		os.Exit(2)
 	}
 	replayFile = *replay
+	outDirGlobal = *out
 	res := run(*seed, *tier, *out)
 	writeJSON(filepath.Join(*out, "result.json"), res)
 }
@@ -37,6 +38,17 @@ var runners = map[string]func(seed int64, tier string, outDir string) *result{}
 // replayFile is the path given with -replay ("" when none); a runner that supports replay
 // re-executes only the recorded case.
 var replayFile string
+
+// announce records the case the harness is about to run (current_case.json in the output
+// directory): if the process then dies inside the library, the driver reports that case as the
+// failing input.
+var outDirGlobal string
+
+func announce(c interface{}) {
+	if outDirGlobal != "" {
+		writeJSON(filepath.Join(outDirGlobal, "current_case.json"), c)
+	}
+}
 
 func register(prop string, f func(seed int64, tier string, outDir string) *result) {
 	runners[prop] = f
